@@ -32,6 +32,9 @@ pub enum Rel {
     Constant(u8),
     /// the same symbols rotated by a whole number of words
     RotatedWords(u8),
+    /// one symbol substituted `off` positions from the start (or from the end): differences inside the
+    /// first or last words of long operands
+    SubstEdge { from_end: bool, off: u8, sym: u8 },
 }
 
 #[derive(Clone, Debug, Serialize, Deserialize)]
@@ -99,6 +102,19 @@ pub fn partner(m: &crate::model::Model, a: &[u8], rel: &Rel) -> Vec<u8> {
                 }
             } else if n > 0 {
                 b[0] = codes[(*c as usize + 1) % codes.len()];
+            }
+            b
+        }
+        Rel::SubstEdge { from_end, off, sym } => {
+            let mut b = a.to_vec();
+            if n > 0 {
+                let o = (*off as usize).min(n - 1);
+                let at = if *from_end { n - 1 - o } else { o };
+                let mut c = codes[*sym as usize % codes.len()];
+                if c == b[at] {
+                    c = codes[(*sym as usize + 1) % codes.len()];
+                }
+                b[at] = c;
             }
             b
         }
@@ -237,6 +253,7 @@ fn rel(m: &'static crate::model::Model) -> BoxedStrategy<Rel> {
         3 => (any::<u16>(), any::<u8>(), any::<u8>()).prop_map(|(p, w, c)| Rel::TwoSubst(p, w, c)),
         2 => any::<u8>().prop_map(Rel::Constant),
         1 => any::<u8>().prop_map(Rel::RotatedWords),
+        2 => (any::<bool>(), any::<u8>(), any::<u8>()).prop_map(|(from_end, off, sym)| Rel::SubstEdge { from_end, off, sym }),
     ]
     .boxed()
 }
@@ -293,7 +310,7 @@ fn same_parent<C: Cm>(case: &SameParent) -> PResult {
     Ok(Pass::new(len >= 1 && i != j).class_if(same_byte && len > 0, "windows_start_in_same_byte").class_if(expected && i != j && len > 0, "equal_windows_different_position").class_if(i != j && (i < j + len && j < i + len), "overlapping_windows"))
 }
 
-fn same_parent_dispatch(c: &SameParent) -> PResult {
+pub fn same_parent_dispatch(c: &SameParent) -> PResult {
     with_codec!(c.codec, C, same_parent::<C>(c))
 }
 
@@ -403,6 +420,13 @@ pub fn run(ctx: &mut Ctx) {
         let m = id.model();
         let lens = gen::long_lens(ctx.thorough(), ctx.seed);
         ctx.forall_lens(&format!("pairs_long/{}", id.name()), &lens, |n| (gen::seq_spec_n(id, n), rel(m), gen::any_repr(m)).prop_map(move |(a, rel, b_repr)| Case { codec: id, a, rel, b_repr }), dispatch);
+        // long operands held the same way (same offset within a word), differing only near one end
+        ctx.forall_lens(
+            &format!("pairs_long_edges/{}", id.name()),
+            &lens,
+            |n| (gen::seq_spec_n(id, n), any::<bool>(), any::<u8>(), any::<u8>()).prop_map(move |(a, from_end, off, sym)| Case { codec: id, b_repr: a.repr.clone(), a, rel: Rel::SubstEdge { from_end, off, sym } }),
+            dispatch,
+        );
     }
     for id in ALL_CODECS {
         let m = id.model();
